@@ -13,6 +13,27 @@ import (
 // bytes are symbolic, so every msgpack encoding that fits, and every truncated or
 // mutated one, is in the space); the elements before it are fixed by `first`.
 func c02Payload(first string, n int) ([]byte, int) {
+	if first == "time" {
+		// the TIME column's only element is symbolic; the value column is [7]
+		b := []byte{0x82, 0xa1, 'm', 0xa3, 'c', 'p', 'u', 0xa7, 'c', 'o', 'l', 'u', 'm', 'n', 's', 0x82, 0xa4, 't', 'i', 'm', 'e', 0x91}
+		elem := zz.Bytes("elem", n)
+		c := elem[0]
+		zz.Assume(!(c >= 0xc7 && c <= 0xc9) && !(c >= 0xd4 && c <= 0xd8))
+		// bytes follow the element here, so a 16/32-bit length header would combine
+		// symbolic and fixed bytes into a length of up to 2^32: excluded
+		zz.Assume(c != 0xc5 && c != 0xc6 && c != 0xda && c != 0xdb && !(c >= 0xdc && c <= 0xdf))
+		// ... and a fixmap/fixarray would swallow the following fixed bytes as its
+		// content (nested keys decoded through reflection): excluded as well
+		zz.Assume(!(c >= 0x80 && c <= 0x9f))
+		if n > 2 {
+			d := elem[1]
+			zz.Assume(!(d >= 0xc7 && d <= 0xc9) && !(d >= 0xd4 && d <= 0xd8))
+			zz.Assume(d != 0xc5 && d != 0xc6 && d != 0xda && d != 0xdb && !(d >= 0xdc && d <= 0xdf))
+		}
+		b = append(b, elem...)
+		b = append(b, 0xa1, 'v', 0x91, 0x07)
+		return b, 1
+	}
 	var lead []byte
 	switch first {
 	case "str":
